@@ -329,7 +329,37 @@ func (s *storage) openAllPacks() error {
 	}
 
 	// If 1 or more pack files are found, open the last one read and write.
-	return s.openForWrite(n - 1)
+	if err := s.openForWrite(n - 1); err != nil {
+		return err
+	}
+	return s.dropTornTail(n - 1)
+}
+
+// dropTornTail truncates the pack open for writing to the end of its last
+// complete blob. A crash in the middle of an append leaves a partial
+// "[ref size]data" record at the end of the pack; that blob was never indexed
+// nor acknowledged, but appending behind it would make everything that
+// follows unreadable for StreamBlobs and Reindex, which walk the pack from its
+// start. A pack which cannot be walked is left alone.
+// This function is not thread safe, s.mu should be locked by the caller.
+func (s *storage) dropTornTail(n int) error {
+	var end int64
+	err := s.walkPack(false, n, func(_ int, _ blob.Ref, offset int64, size uint32) error {
+		end = offset + int64(size)
+		return nil
+	})
+	if err != nil || end >= s.size {
+		return nil
+	}
+	log.Printf("diskpacked: dropping %d bytes of an incomplete append at the end of %s", s.size-end, s.writer.Name())
+	if err := s.writer.Truncate(end); err != nil {
+		return err
+	}
+	if _, err := s.writer.Seek(end, io.SeekStart); err != nil {
+		return err
+	}
+	s.size = end
+	return nil
 }
 
 // Close index and all opened fds, with locking.
